@@ -360,6 +360,11 @@ func Parse(block []rune, pos int) (pt ParsedTokens, syntaxHighlighted string) {
 			}
 
 		case '>':
+			if !pt.Escaped && !pt.QuoteSingle && !pt.QuoteDouble && pt.QuoteBrace <= 0 &&
+				i > 0 && (block[i-1] == '~' || block[i-1] == '>') {
+				// `~>` and `>>` redirect into a file, also when written without a space before them
+				pt.Unsafe = true
+			}
 			switch {
 			case pt.Escaped:
 				escaped()
